@@ -16,6 +16,9 @@ Notation smap := (gmap positive Z).
 
 Record res := mkRes { cpu : Z; mem : Z; sc : option smap }.
 
+Global Instance res_eq_dec : EqDecision res.
+Proof. solve_decision. Defined.
+
 Inductive dflt := DZero | DInf.
 
 Definition pods_name : positive := 1%positive.
